@@ -90,9 +90,12 @@ func (v *VerifFilterCursor) Step(i int) VerifCursorStep {
 	filters, _, readFailed, err := v.cursor.filtersFor(i)
 	step := VerifCursorStep{Block: i, Err: err, ReadFailed: readFailed, Filters: filters,
 		HasChunk: v.cursor.buf != nil, ChunkStart: v.cursor.chunkStart, ChunkLen: len(v.cursor.buf)}
-	if section, ok := v.cursor.heldSection(&v.blocks[i]); ok {
-		step.Held = true
-		step.Section = append([]byte(nil), section...)
+	// heldSection is only ever consulted for a block that passed validation and has a section
+	if v.blocks[i].BloomFilterSize > 0 && v.blocks[i].validateFilterSection(v.cursor.regionStart, v.cursor.regionEnd) == nil {
+		if section, ok := v.cursor.heldSection(&v.blocks[i]); ok {
+			step.Held = true
+			step.Section = append([]byte(nil), section...)
+		}
 	}
 	return step
 }
